@@ -21,6 +21,9 @@ def make_wl(rng, k):
         spec["n_exp"] = 1
     # chrP: >= 1024 short reads inside one coverage bin; a deep island whose last coverage valley is its last bin
     spec["pile"] = 1 if (k is not None and k % 4 == 1) or (k is None and rng.random() < 0.15) else 0
+    if k is not None and (spec["pile"] or spec["long_locus"]):
+        # region splitting differs between the two alignment stores: pin the memory mode alternately
+        opts["force_cell"] = {"high_memory": (k // 2) % 2 == 0}
     return spec, opts
 
 
@@ -29,7 +32,52 @@ def attrs(probs, spec, opts, cell, res):
     return {"kind": re.sub(r"\br\d+\w*|\d+", "N", p)[:70]}
 
 
+def run_machine(chk, orch):
+    """layer M: region splitting and the in-memory alignment store against a brute-force overlap model"""
+    quick = chk.tier == "quick"
+    nm = 4 if quick else 16
+    for k in range(nm):
+        orch.submit(k % 2, "machines.c05:run", {"seed": chk.seed * 1000 + k, "max_examples": 150 if quick else 1500},
+                    tag=("m", k, k % 2), timeout=900)
+    for jid, tag, r in orch.results():
+        if not r.get("ok"):
+            chk.harness_error(r.get("err"))
+            continue
+        res = r["res"]
+        if res.get("error"):
+            chk.harness_error("machine: " + res["error"])
+            continue
+        chk.evaluations += res["examples"]
+        chk.extra["region_machine_islands"] = chk.extra.get("region_machine_islands", 0) + res["examples"]
+        chk.probes["machine_island_long_or_deep_enough_to_split"] += res.get("islands_long_or_deep_enough_to_split", 0)
+        chk.probes["machine_island_with_1024+_alignments"] += res.get("islands_with_1024+_alignments", 0)
+        for i in range(res["distinct"]):
+            chk.distinct.add("M%d/%d" % (tag[1], i))
+        for s_ in res.get("samples", [])[:1]:
+            chk.sample({"kind": "read island (region machine): [start offset, length, multiplicity]", "case": s_}, cap=2)
+        if res.get("fail"):
+            f = res["fail"]
+            chk.violation("machine", {"kind": f["problems"][0][0]}, f["problems"][0][1],
+                          {"engine": "machine:c05", "oracle": "module:checks.c05", "kind": "M", "case": f["case"], "hashseed": tag[2]})
+
+
+def replay(doc, orch):
+    import json
+    jid = orch.submit(doc.get("hashseed", 0), "machines.c05:replay_case", {"case": doc["case"]})
+    r = orch.run_all()[jid][1]
+    if not r.get("ok"):
+        return False, "harness: %s" % r.get("err")
+    probs = r["res"]["problems"]
+    return bool(probs), "\n".join("%s: %s" % (k, t) for k, t in probs) + "\ncase: " + json.dumps(doc["case"])
+
+
 def run(chk, orch):
+    run_machine(chk, orch)
     sweep.run_sweep(chk, orch, "accounting", make_wl, n_quick=16, n_round=40, attr_fn=attrs,
                     what="reads with a mapped, non-supplementary MAPQ-60 record are reported (BED and read_assignments), no read "
                          "without admissible alignment is, no identical records, log alignment statistics = input record counts")
+    chk.rule = ("two layers. (M) machine: seeded read islands (up to 40 record groups, lengths 40 bp - 70 kb, multiplicities up to "
+                "1100, starts on and off the 256-bp bin grid) are fed to the real coverage binning, split_coverage_regions and "
+                "InMemoryAlignmentStorage: every alignment must overlap at least one processing region, regions must be contiguous, "
+                "and for every region the in-memory store must return exactly the overlapping alignments in stream order (what the "
+                "streaming store gets from an indexed fetch); one evaluation = one island. (P) pipeline: ") + chk.rule
